@@ -89,11 +89,11 @@ class AGen(VGen):
             style = r.choice([0, 1])
             out = {"a": "typeddict", "cls": {"id": self.cid(), "kind": 4, "hashable": False, "slots": False},
                    "names": names, "anns": anns, "reqs": reqs, "style": style}
-            if n and r.random() < 0.3:
-                # the first `inherit` keys come from a base TypedDict whose totality (`base_total`) is drawn
-                # independently of the class's own (`style`)
+            if n and r.random() < 0.5:
+                # the first `inherit` keys come from a base TypedDict whose totality (`base_total`) is mostly the
+                # opposite of the class's own (`style` 0 = total)
                 out["inherit"] = r.randint(1, n)
-                out["base_total"] = r.random() < 0.5
+                out["base_total"] = (style == 1) if r.random() < 0.75 else (style == 0)
             return out
         ndef = r.choice([0, 0, 1, n]) if n else 0
         dflts: List[Any] = [None] * (n - min(ndef, n))
@@ -535,6 +535,15 @@ def gen_case(g: AGen, opts: dict) -> dict:
         if 0.15 <= c < 0.5:
             x = g.near_miss(x)
         xs.append(x)
+    if a["a"] in ("typeddict", "dataclass", "namedtuple") and a["names"]:
+        # a record given as a dict of its fields with exactly one key left out: accepted iff that key may be absent
+        x = copy.deepcopy(g.conform_ann(a))
+        if x.get("t") == "inst":
+            x = {"t": "dict", "oid": g.oid(), "kvs": [[{"t": "str", "s": [ord(ch) for ch in n]}, v]
+                                                       for n, v in zip(x["names"], x["vals"])]}
+        if x.get("t") == "dict" and x.get("kvs"):
+            x["kvs"].pop(r.randrange(len(x["kvs"])))
+            xs.append(x)
     return {"ann": a, "xs": xs, "classes": g.classes, "resolver": opts.get("resolver", "default")}
 
 
